@@ -207,6 +207,80 @@ def returned_values(fn_node: ast.AST, top_level_only: bool = False) -> List[Tupl
     return out
 
 
+class _MatchToIf(ast.NodeTransformer):
+    """match s: case "a": A / case "b" | "c": B / case _: C   ->   if s == "a": A / elif s in ("b", "c"): B / else: C
+    (literal, singleton, or-patterns of those, wildcard / capture, optional guards).  Any other pattern shape leaves the
+    statement as it is.  The source is not touched; this is a normal form of the model."""
+
+    def __init__(self):
+        self.n = 0
+
+    def _cond(self, subj: ast.expr, pat: ast.pattern):
+        """(condition or None for always-true, [binding statements]) ; raises ValueError for unsupported patterns"""
+        import copy
+        if isinstance(pat, ast.MatchValue):
+            return ast.Compare(left=copy.deepcopy(subj), ops=[ast.Eq()], comparators=[pat.value]), []
+        if isinstance(pat, ast.MatchSingleton):
+            return ast.Compare(left=copy.deepcopy(subj), ops=[ast.Is()], comparators=[ast.Constant(value=pat.value)]), []
+        if isinstance(pat, ast.MatchOr):
+            if all(isinstance(q, ast.MatchValue) for q in pat.patterns):
+                return ast.Compare(left=copy.deepcopy(subj), ops=[ast.In()],
+                                   comparators=[ast.Tuple(elts=[q.value for q in pat.patterns], ctx=ast.Load())]), []
+            parts = [self._cond(subj, q) for q in pat.patterns]
+            if any(b for _, b in parts) or any(c is None for c, _ in parts):
+                raise ValueError
+            return ast.BoolOp(op=ast.Or(), values=[c for c, _ in parts]), []
+        if isinstance(pat, ast.MatchAs):
+            if pat.pattern is None:
+                binds = [] if pat.name is None else [
+                    ast.Assign(targets=[ast.Name(id=pat.name, ctx=ast.Store())], value=copy.deepcopy(subj))]
+                return None, binds
+            c, b = self._cond(subj, pat.pattern)
+            return c, b + [ast.Assign(targets=[ast.Name(id=pat.name, ctx=ast.Store())], value=copy.deepcopy(subj))]
+        raise ValueError
+
+    def visit_Match(self, node: ast.Match):
+        self.generic_visit(node)
+        pre = []
+        subj = node.subject
+        if not isinstance(subj, (ast.Name, ast.Constant)):
+            self.n += 1
+            tmp = f"match_subject_{self.n}__"
+            pre.append(ast.Assign(targets=[ast.Name(id=tmp, ctx=ast.Store())], value=subj))
+            subj = ast.Name(id=tmp, ctx=ast.Load())
+        try:
+            arms = []
+            for c in node.cases:
+                cond, binds = self._cond(subj, c.pattern)
+                pre_b = []
+                if c.guard is not None:
+                    if binds and cond is not None:
+                        raise ValueError           # a refutable pattern with a capture the guard may read
+                    if binds:
+                        pre_b, binds = binds, []   # an irrefutable capture is bound before its guard is evaluated
+                    cond = c.guard if cond is None else ast.BoolOp(op=ast.And(), values=[cond, c.guard])
+                arms.append((cond, pre_b, binds + list(c.body)))
+        except ValueError:
+            return node
+        tail: list = []
+        for cond, pre_b, body in reversed(arms):
+            if cond is None:
+                tail = pre_b + body
+            else:
+                tail = pre_b + [ast.If(test=cond, body=body, orelse=tail)]
+        out = pre + (tail or [ast.Pass()])
+        for st in out:
+            ast.copy_location(st, node)
+            ast.fix_missing_locations(st)
+        return out
+
+
+def _desugar_match(tree: ast.AST) -> ast.AST:
+    if not any(isinstance(n, ast.Match) for n in ast.walk(tree)):
+        return tree
+    return _MatchToIf().visit(tree)
+
+
 def dotted(node: ast.AST) -> Optional[str]:
     """a.b.c -> 'a.b.c' (Names/Attributes only)."""
     parts = []
@@ -681,7 +755,7 @@ class Program:
                 with open(path, "r", encoding="utf-8") as fh:
                     src = fh.read()
             try:
-                tree = ast.parse(src, filename=path)
+                tree = _desugar_match(ast.parse(src, filename=path))
             except SyntaxError as e:
                 raise AnalysisError(f"{rel}: does not parse: {e}")
             mod = ModuleInfo(name=name, path=rel, source=src, tree=tree)
@@ -710,6 +784,8 @@ class Program:
                         mod.imports[alias] = ("ext", target)
             elif isinstance(node, ast.ImportFrom):
                 m = node.module or ""
+                if getattr(node, "level", 0):
+                    m = PKG + ("." + m if m else "")        # from . import x / from .mod import y  (a flat package)
                 for a in node.names:
                     alias = a.asname or a.name
                     if m == PKG:
